@@ -25,6 +25,7 @@ def main():
         # long lists: anything a generator might remember from one fake() to the next shows up as a difference between the
         # first pass (cold process) and the second
         schema.str.regex(r"a*b*c*d*e*f*g*h*"), schema.str.regex(r"(x|y)+\d*[ab]{2,}k*"), schema.str.regex(r"\w*-\d+-[a-c]*"),
+        schema.str.regex(r"[\w.-]{12}"), schema.str.regex(r"[\d,]{8}x[\w ]+"), schema.str.regex(r"[a\d_]{6}[\w\d.]{6}"),
         schema.str.regex(r"z{40,}"), schema.str.regex(r"(ab){35,}c*"),
         schema.str.regex(r"a*b*c*d*e*f*g*h*"), schema.str.regex(r"p+q+r+s+t+u+v+w+"),
         schema.str.len(50, ...), schema.str.len(0, 3), schema.list(schema.int).len(40, ...), schema.list(schema.int),
